@@ -954,6 +954,10 @@ def native_obligation(name):
         except Exception as ex:  # pylint: disable=broad-except
             return Outcome(DISCHARGED, "native-standin", f"skipped: cannot construct ({type(ex).__name__})", extra=dict(bounded=True))
         problems = []
+        try:
+            op_repr = repr(op)
+        except Exception:  # pylint: disable=broad-except
+            op_repr = name
 
         def arrays(x):
             out = []
@@ -1004,8 +1008,8 @@ def native_obligation(name):
             except Exception as ex:  # pylint: disable=broad-except
                 problems.append(f"bind_new_parameters raised {type(ex).__name__}: {str(ex)[:100]}")
         if problems:
-            return Outcome(REFUTED, "native-standin", "; ".join(problems[:4]), witness=dict(operator=name, repr=repr(op)),
-                           replay=dict(confirmed=True, observed=problems, inputs=repr(op)))
+            return Outcome(REFUTED, "native-standin", "; ".join(problems[:4]), witness=dict(operator=name, repr=op_repr),
+                           replay=dict(confirmed=True, observed=problems, inputs=op_repr))
         return Outcome(DISCHARGED, "native-standin", "copy / deepcopy / pickle / pytree / _flatten / bind_new_parameters reproduce the operator",
                        extra=dict(bounded=True))
     return Obligation(f"{PID}/native:round trips/{name}", "bounded", fn, bounded=True, timeout=240, sample="real round trips compared with qp.equal and hash")
